@@ -9,22 +9,22 @@ CHECKS = {
     "C01": dict(
         cat="exploration", ref="4 C01",
         technique="property-based testing (proptest generators + exhaustive small scope) against a brute-force reference semantics",
-        text="Generated frameworks (mixed shapes, four presentations incl. sparse ids and duplicate attack lines, <=9/13 arguments) plus all digraphs on <=3 (quick) / <=4 (thorough) arguments; every SE problem with every selectable encoder must return a member of the brute-force extension family (validity, not a golden output), None only when no stable extension exists, no duplicate or foreign members. Exploration, not proof: the right level because the domain is infinite and the oracle exact only on small graphs.",
+        text="Generated frameworks (mixed shapes, four presentations incl. sparse ids and duplicate attack lines, <=9/13 arguments) plus all digraphs on <=3 (quick) / <=4 (thorough) arguments; every SE problem with every selectable encoder must return a member of the brute-force extension family (validity, not a golden output), None only when no stable extension exists, no duplicate or foreign members. Exploration, not proof: the right level because the domain is infinite and the oracle exact only on small graphs. About 1% of the cases are disjoint unions of 3-30 small components (20-200 arguments, interleaved ids, optionally joined into one connected component through a defeated hub) whose exact answers follow by composition from brute force per component.",
         note="trusted: oracle.rs (self-tested on all graphs n<=3 at start-up), CaDiCaL; exact only for <=13 arguments"),
     "C02": dict(
         cat="exploration", ref="4 C02/C03",
         technique="property-based testing against a brute-force reference semantics",
-        text="Same generators; every DC problem x every argument x every selectable encoder x both entry points (plain / with certificate) on a fresh solver; status must equal 'some reference extension contains the argument', including NO everywhere when no stable extension exists.",
+        text="Same generators; every DC problem x every argument x every selectable encoder x both entry points (plain / with certificate) on a fresh solver; status must equal 'some reference extension contains the argument', including NO everywhere when no stable extension exists. About 1% of the cases are disjoint unions of 3-30 small components (20-200 arguments, interleaved ids, optionally joined into one connected component through a defeated hub) whose exact answers follow by composition from brute force per component.",
         note="trusted: oracle.rs, CaDiCaL; <=13 arguments"),
     "C03": dict(
         cat="exploration", ref="4 C02/C03",
         technique="property-based testing against a brute-force reference semantics",
-        text="Same generators; every DS problem x every argument x every selectable encoder x both entry points; status must equal 'every reference extension contains the argument' (vacuous YES under ST without extension; DS-CO = grounded membership).",
+        text="Same generators; every DS problem x every argument x every selectable encoder x both entry points; status must equal 'every reference extension contains the argument' (vacuous YES under ST without extension; DS-CO = grounded membership). About 1% of the cases are disjoint unions of 3-30 small components (20-200 arguments, interleaved ids, optionally joined into one connected component through a defeated hub) whose exact answers follow by composition from brute force per component.",
         note="trusted: oracle.rs, CaDiCaL; <=13 arguments"),
     "C04": dict(
         cat="exploration", ref="4 C04",
         technique="property-based testing; certificate validity predicate from brute-force reference semantics",
-        text="Multi-component-biased generator; every DC/DS problem with certificate: certificate present exactly when promised, is a reference extension (complete for DC-PR), contains / omits the argument, members are the framework's own arguments (label and id) once each.",
+        text="Multi-component-biased generator; every DC/DS problem with certificate: certificate present exactly when promised, is a reference extension (complete for DC-PR), contains / omits the argument, members are the framework's own arguments (label and id) once each. About 1% of the cases are disjoint unions of 3-30 small components (20-200 arguments, interleaved ids, optionally joined into one connected component through a defeated hub) whose exact answers follow by composition from brute force per component. Certificates on frameworks of 20-300 arguments are also judged by polynomial necessary conditions.",
         note="trusted: oracle.rs, CaDiCaL; <=13 arguments"),
     "C07": dict(
         cat="exploration", ref="4 C07",
@@ -44,7 +44,7 @@ CHECKS = {
     "C15": dict(
         cat="exploration", ref="4 C15",
         technique="model-based property testing of operation sequences; differential between three backends; brute-force SAT oracle",
-        text="Generated add_clause/reserve/solve/solve_under_assumptions sequences (assumptions also on unseen and only-reserved variables, empty clause, structured prefixes) on CadicalSolver, ExternalSatSolver(fake_sat with strict DIMACS validation) and ExternalSatSolver(kissat) when installed; every verdict and model checked against brute force over the accumulated clauses and that call's assumptions.",
+        text="Generated add_clause/reserve/solve/solve_under_assumptions sequences (assumptions also on unseen and only-reserved variables, empty clause, structured prefixes) on CadicalSolver, ExternalSatSolver(fake_sat with strict DIMACS validation) and ExternalSatSolver(kissat) when installed; every verdict and model checked against brute force over the accumulated clauses and that call's assumptions. Variables are mapped with strides up to 128 (variable numbers ~1800), clauses of up to 9 literals, sequences up to 144/360 operations, a bulk operation producing DIMACS texts of several MiB.",
         note="trusted: brute force over <=2^14 assignments, fake_sat's validator; kissat optional (absence lowers coverage only)"),
     "C16": dict(
         cat="exploration", ref="4 C16",
@@ -59,27 +59,27 @@ CHECKS = {
     "C10": dict(
         cat="translation_validation", ref="4 C10",
         technique="translation validation of every generated CNF: exhaustive assumption probing of all argument subsets against brute-force families, driven by generated and exhaustively enumerated frameworks",
-        text="For each generated or enumerated framework with compact ids and each of the 7 encoders (plain and with range), the recorded clause list is validated exactly: for every subset S of the arguments, CNF+S is satisfiable iff S is in the intended family (conflict-free/admissible/complete/stable by brute force); assignment_to_extension returns S; range variables sound and complete; literal layout injective, positive, disjoint from range variables, within n_vars. Exact per program for <=10 arguments; programs are sampled (plus all digraphs on <=3/4 arguments).",
+        text="For each generated or enumerated framework with compact ids and each of the 7 encoders (plain and with range), the recorded clause list is validated exactly: for every subset S of the arguments, CNF+S is satisfiable iff S is in the intended family (conflict-free/admissible/complete/stable by brute force); assignment_to_extension returns S; range variables sound and complete; literal layout injective, positive, disjoint from range variables, within n_vars. Exact per program for <=10 arguments; programs are sampled (plus all digraphs on <=3/4 arguments). One case in 40 is a framework of 11-48 arguments probed on the CNF's own model, its neighbours and generated subsets with polynomial membership tests; in 40% of the cases the encoder object is reused after another framework.",
         note="trusted: oracle.rs families, CadicalSolver as probe (checked by C15); frameworks <=10 arguments"),
     "C12": dict(
         cat="exploration", ref="4 C12",
         technique="model-based stateful property testing (update histories vs a set model) + exhaustive enumeration of short histories",
-        text="Generated histories of up to 200/600 operations over 4-8 labels (usize and String) with arbitrary operands, full observable-state comparison with a set model after every step, Result vs precondition, id uniqueness/stability/no reuse; plus every 4-step (quick) / 5-step (thorough) history over two labels.",
+        text="Generated histories of up to 200/600 operations over 4-8 labels (usize and String) with arbitrary operands, full observable-state comparison with a set model after every step, Result vs precondition, id uniqueness/stability/no reuse; plus every 4-step (quick) / 5-step (thorough) history over two labels. 20% of the histories run over 20-120 labels with hub bias (long adjacency lists, ids in the hundreds).",
         note="trusted: the set model"),
     "C14": dict(
         cat="exploration", ref="4 C14",
         technique="round-trip property testing with an independent tokenizer and byte-exact expected output",
-        text="Frameworks produced by generated update histories over identifier labels are written by AspartixWriter, checked byte-wise against the set model by an independent tokenizer, and read back by AspartixReader (same labels in order, same attacks); generated ordered extensions (incl. empty) through both response writers must produce exactly the specified bytes; statuses exactly YES/NO lines.",
+        text="Frameworks produced by generated update histories over identifier labels are written by AspartixWriter, checked byte-wise against the set model by an independent tokenizer, and read back by AspartixReader (same labels in order, same attacks); generated ordered extensions (incl. empty) through both response writers must produce exactly the specified bytes; statuses exactly YES/NO lines. One case in 4000 writes extensions of up to 30000 (thorough 120000) labels and frameworks of that size.",
         note="trusted: the tokenizer (20 lines) and the set model; labels are valid Aspartix identifiers"),
     "C18": dict(
         cat="exploration", ref="4 C18",
         technique="property-based testing with a counting/recording SAT wrapper whose cap is the stated bound (liveness reduced to a safety bound)",
-        text="Generated problems on frameworks of <=9/11 arguments (70% connected) run with a SAT factory that aborts at bound+1 calls, the bound being computed per component from brute-force counts exactly as the property states; recorded models on one instance must be pairwise distinct (PR) / at most twice (ID) when projected on the argument variables; DS queries of generated dynamic-preferred histories bounded by |CO|+|PR|+1.",
+        text="Generated problems on frameworks of <=9/11 arguments (70% connected) run with a SAT factory that aborts at bound+1 calls, the bound being computed per component from brute-force counts exactly as the property states; recorded models on one instance must be pairwise distinct (PR) / at most twice (ID) when projected on the argument variables; DS queries of generated dynamic-preferred histories bounded by |CO|+|PR|+1. Scripts of queries on ONE solver object get a bound per query.",
         note="trusted: oracle.rs counts; termination of individual CaDiCaL calls assumed"),
     "C19": dict(
         cat="exploration", ref="4 C19",
         technique="property-based testing + exhaustive small scope against brute-force complete extensions",
-        text="Generated frameworks (<=10/13 arguments, compact ids incl. duplicate attack lines) and all digraphs on <=3/4 arguments: classes of the reduction partition the arguments, the two mappings are inverse at class level, every class is inside or outside each complete extension, grounded and defeated sets each within one class, no panic.",
+        text="Generated frameworks (<=10/13 arguments, compact ids incl. duplicate attack lines) and all digraphs on <=3/4 arguments: classes of the reduction partition the arguments, the two mappings are inverse at class level, every class is inside or outside each complete extension, grounded and defeated sets each within one class, no panic. One case in 300 is a union of many small components (20-200 arguments) judged exactly by per-component signatures.",
         note="trusted: oracle.rs complete extensions"),
     "C05": dict(
         cat="exploration", ref="4 C05",
@@ -89,7 +89,7 @@ CHECKS = {
     "C06": dict(
         cat="exploration", ref="4 C06",
         technique="stateful property-based testing: generated query scripts on one solver object per configuration, each answer against the reference (differential across encodings/backends by transitivity)",
-        text="Generated scripts of 3-12 (thorough: up to 30) SE/DC/DS steps with repetitions and certificate flags put to ONE solver object per (solver type, selectable encoder, backend in embedded / ExternalSatSolver(fake_sat) / ExternalSatSolver(kissat)); every answer equals the brute-force answer; a snapshot of the framework before equals the one after.",
+        text="Generated scripts of 3-12 (thorough: up to 30) SE/DC/DS steps with repetitions and certificate flags put to ONE solver object per (solver type, selectable encoder, backend in embedded / ExternalSatSolver(fake_sat) / ExternalSatSolver(kissat)); every answer equals the brute-force answer; a snapshot of the framework before equals the one after. One case in 250 compares the embedded and an external backend on a framework of 40-200 arguments.",
         note="trusted: oracle.rs; kissat optional; <=8 arguments"),
     "C13": dict(
         cat="exploration", ref="4 C13",
@@ -99,7 +99,7 @@ CHECKS = {
     "C11": dict(
         cat="exploration", ref="4 C11",
         technique="metamorphic property-based testing on frameworks of 20-300 arguments (renaming, reordering, duplication, format switch, disjoint union, component removal) plus cross-semantics consistency relations",
-        text="Frameworks far beyond the brute-force oracle, assembled from small blocks into components of very different sizes; 2-4 random transformations composed; all 14 DC/DS statuses of 4-8 queried arguments must be unchanged (ST: by the stated rule on stable extensions of the added/removed part), returned extensions must satisfy polynomial necessary conditions, and the answers of the 21 problems on each framework must satisfy the listed consistency relations (and their textbook consequences).",
+        text="Frameworks far beyond the brute-force oracle, assembled from small blocks into components of very different sizes; 2-4 random transformations composed; all 14 DC/DS statuses of 4-8 queried arguments must be unchanged (ST: by the stated rule on stable extensions of the added/removed part), returned extensions must satisfy polynomial necessary conditions, and the answers of the 21 problems on each framework must satisfy the listed consistency relations (and their textbook consequences). Fan gadgets give in-degrees of several hundred, 20% of the frameworks are padded to a multiple of 64 arguments, one attack line may be repeated 200-700 times.",
         note="relations are necessary conditions only; trusted: the polynomial checkers, oracle.rs on the small added/removed parts"),
 }
 
